@@ -188,6 +188,19 @@ func condWaitStates(c *Ctx, fn *ssa.Function) map[ssa.Instruction]StateSet {
 // ctxDoneOf: v is (a copy of) the result of Done() on a context.
 func ctxDoneOf(v ssa.Value) (ssa.Value, bool) {
 	for _, lf := range valueLeaves(v, nil, 0) {
+		if p, isP := lf.v.(*ssa.Parameter); isP {
+			// a channel parameter of a helper: ctx.Done() at every call site
+			args := helperChanArgs(p)
+			if len(args) == 0 {
+				return nil, false
+			}
+			for _, a := range args {
+				if _, ok := ctxDoneOf(a); !ok {
+					return nil, false
+				}
+			}
+			continue
+		}
 		call, ok := lf.v.(*ssa.Call)
 		if !ok || !call.Call.IsInvoke() || call.Call.Method.Name() != "Done" {
 			return nil, false
